@@ -108,6 +108,14 @@ ITEMS: typing.List[dict] = [
                "self.BITS_PER_BYTE": ("(8 : Nat)", "int")}},
 ]
 
+ITEMS += [
+    {"name": "DataSchemaBuilder.offset", "source": BUILDER, "cls": "DataSchemaBuilder", "fn": "offset", "kind": "method",
+     "params": [("union", "bool"), ("fields", "tylist")], "ret": "bls",
+     "paths": {"self.union": ("union", "bool"), "self.fields": ("fields", "tylist"), "self._bit_length_computed_at_least_once": ("true", "bool")},
+     "ignored_assignments": ["self._bit_length_computed_at_least_once"],
+     "classes": {"_serializable.UnionType": "UnionType", "_serializable.StructureType": "StructureType"},
+     "class_methods": {"aggregate_bit_length_sets": "bls"}},
+]
 PRIMITIVE = "pydsdl/_serializable/_primitive.py"
 ITEMS += [
     {"name": "SignedIntegerType.inclusive_value_range", "source": PRIMITIVE, "cls": "SignedIntegerType", "fn": "inclusive_value_range", "kind": "method",
@@ -373,6 +381,7 @@ class Tr:
     def sub(self) -> "Tr":
         s = Tr(self.item)
         s.paths, s.calls, s.aliases, s.types = self.paths, self.calls, self.aliases, dict(self.types)
+        s.choices = getattr(self, "choices", {})
         s.tmp = self.tmp + 50
         return s
 
@@ -412,6 +421,15 @@ class Tr:
             fs = ast.unparse(f)
         except Exception:  # pragma: no cover
             fs = "?"
+        choices = getattr(self, "choices", {})
+        if isinstance(f, ast.Attribute) and isinstance(f.value, ast.Name) and f.value.id in choices:
+            c, ca, cb = choices[f.value.id]
+            meths = self.item.get("class_methods", {})
+            if f.attr not in meths:
+                raise Untranslatable("method %s of a class chosen at run time" % f.attr)
+            rt = meths[f.attr]
+            args = " ".join(self.e(a)[0] for a in n.args)
+            return self.bind("(if %s then Gen.%s.%s %s else Gen.%s.%s %s)" % (c, ca, f.attr, args, cb, f.attr, args)), rt
         if fs in self.calls:
             target, rt = self.calls[fs]
             args = " ".join(self.e(a)[0] for a in n.args)
@@ -431,6 +449,8 @@ class Tr:
                 a = self.e(n.args[0])
                 if a[1] in ("tylist", "blslist", "intlist"):
                     return "(%s).length" % a[0], "int"
+                if a[1] == "bls":
+                    return "(Py.blsLen %s)" % a[0], "int"
                 raise Untranslatable("len of %s" % a[1])
             if f.id == "int" and len(n.args) == 1:
                 a = self.e(n.args[0])
@@ -487,9 +507,20 @@ class Tr:
         self.pre = []
 
     def assign(self, target: ast.AST, value: ast.AST, out, ind, declared: typing.Set[str], mut: typing.Set[str]) -> None:
+        # `ty = A if cond else B` with A, B classes whose static methods are translated: remembered, not emitted
+        classes = self.item.get("classes", {})
+        if isinstance(target, ast.Name) and isinstance(value, ast.IfExp) and ast.unparse(value.body) in classes and ast.unparse(value.orelse) in classes:
+            c, tc = self.e(value.test)
+            if tc != "bool":
+                raise Untranslatable("class choice on %s" % tc)
+            self.choices = getattr(self, "choices", {})
+            self.choices[target.id] = (c, classes[ast.unparse(value.body)], classes[ast.unparse(value.orelse)])
+            return
         v, t = self.e(value)
         self.flush(out, ind)
         ts = ast.unparse(target)
+        if ts in self.item.get("ignored_assignments", ()):
+            return
         name = lname(ts[5:] if ts.startswith("self.") else ts)
         if not (isinstance(target, ast.Name) or ts.startswith("self._")):
             raise Untranslatable("assignment to %s" % ts)
